@@ -1,96 +1,93 @@
 (* Premises of the SM2 theorems, discharged (not tied to one property: referenced by C01, C02, C03, C09, C13, C14).
 
-   coq/Prime proves, closed under the global context:
+   Proved, closed under the global context:
      sm2_p_is_prime, sm2_n_is_prime   Pocklington certificates checked by vm_compute (Prime/SM2Primes.v)
      sm2_G_on_curve, [n]G = infinity  by computation (Prime/SM2FactsProof.v)
-     [k]G <> infinity for 0 < k < n   from the two above, given associativity
-     SM2Facts_from_assoc : sm2_add_assoc_statement -> SM2Facts
-   so every theorem of the development that has the bundled premise SM2Facts, or the separate premises P_prime /
-   N_prime / G_order_divides_n / G_multiples_finite of SM2/SM2GroupMin.v, holds with the associativity of the affine
-   chord-and-tangent addition on the points of the curve as its ONLY mathematical premise, and the theorems that
-   only needed "prime sm2_p" hold unconditionally.  The corollaries below are the original theorems applied to these
-   facts; each statement is computed from the original one (so it cannot drift from it) and printed by Check. *)
+     associativity of the affine chord-and-tangent addition on the points of the curve (SM2/ECAssoc.v, given p prime)
+     [k]G <> infinity for 0 < k < n   from the above
+     SM2Facts_proved : SM2Facts
+   so every theorem of the development that has the bundled premise SM2Facts, the separate premises P_prime / N_prime /
+   Add_assoc / G_order_divides_n / G_multiples_finite of SM2/SM2GroupMin.v, or "prime sm2_p", holds UNCONDITIONALLY.
+   The corollaries below are the original theorems applied to these facts; each statement is computed from the original
+   one (so it cannot drift from it) and the main ones are printed by Check. *)
 From Coq Require Import List NArith ZArith Znumtheory.
 From GmsmVerif Require Import EC.ECAffine EC.SM2Curve SM2.SM2GroupMin Prime.SM2Primes Prime.SM2FactsProof.
-From GmsmVerif Require Props.C01 Props.C02 Props.C03 Props.C09 Props.C13 Props.C14.
-From GmsmVerif Require Import Ser.SerModel.
+From GmsmVerif Require Props.C01 Props.C02 Props.C03 Props.C09 Props.C13.
+(* C14: through the lemma behind Props/C14.v compress_decompress (not Props.C14 itself, which every C14 run rebuilds) *)
+From GmsmVerif Require Import Ser.SerModel Ser.SerProofs.
 
-(* statement of "thm with SM2Facts replaced by associativity" *)
-Ltac with_assoc thm :=
-  let T := type of (fun H : sm2_add_assoc_statement => thm (SM2Facts_from_assoc H)) in exact T.
-(* the same for theorems with the five separate premises of SM2GroupMin *)
-Ltac with_assoc5 thm :=
-  let T := type of (fun H : sm2_add_assoc_statement =>
-                      thm P_prime_holds H G_order_divides_n_holds (G_multiples_finite_from_assoc H) N_prime_holds) in exact T.
+Ltac with_facts thm := let T := type of (thm SM2Facts_proved) in exact T.
+Ltac with_facts5 thm :=
+  let T := type of (thm P_prime_holds Add_assoc_holds G_order_divides_n_holds G_multiples_finite_holds N_prime_holds) in exact T.
 Ltac unconditional thm := let T := type of (thm sm2_p_is_prime) in exact T.
 
-Theorem sm2_facts_assoc_only : sm2_add_assoc_statement -> SM2Facts.
-Proof. exact SM2Facts_from_assoc. Qed.
-Print Assumptions sm2_facts_assoc_only.
+Theorem SM2Facts_hold : SM2Facts.
+Proof. exact SM2Facts_proved. Qed.
+Print Assumptions SM2Facts_hold.
 
 (* ---- C01: a signature made with d verifies under [d]G; verification on curve points is the standard's B1-B7 ---- *)
-Theorem C01_verify_complete_assoc_only : ltac:(with_assoc C01.C01_verify_complete).
-Proof. exact (fun H => C01.C01_verify_complete (SM2Facts_from_assoc H)). Qed.
-Print Assumptions C01_verify_complete_assoc_only.
-Check C01_verify_complete_assoc_only.
+Theorem C01_verify_complete_unconditional : ltac:(with_facts C01.C01_verify_complete).
+Proof. exact (C01.C01_verify_complete SM2Facts_proved). Qed.
+Print Assumptions C01_verify_complete_unconditional.
+Check C01_verify_complete_unconditional.
 
-Theorem C01_Sm2Sign_then_Sm2Verify_assoc_only : ltac:(with_assoc C01.C01_Sm2Sign_then_Sm2Verify).
-Proof. exact (fun H => C01.C01_Sm2Sign_then_Sm2Verify (SM2Facts_from_assoc H)). Qed.
-Print Assumptions C01_Sm2Sign_then_Sm2Verify_assoc_only.
+Theorem C01_Sm2Sign_then_Sm2Verify_unconditional : ltac:(with_facts C01.C01_Sm2Sign_then_Sm2Verify).
+Proof. exact (C01.C01_Sm2Sign_then_Sm2Verify SM2Facts_proved). Qed.
+Print Assumptions C01_Sm2Sign_then_Sm2Verify_unconditional.
 
-Theorem C01_verify_is_standard_on_curve_assoc_only : ltac:(with_assoc C01.C01_verify_is_standard_on_curve).
-Proof. exact (fun H => C01.C01_verify_is_standard_on_curve (SM2Facts_from_assoc H)). Qed.
-Print Assumptions C01_verify_is_standard_on_curve_assoc_only.
+Theorem C01_verify_is_standard_on_curve_unconditional : ltac:(with_facts C01.C01_verify_is_standard_on_curve).
+Proof. exact (C01.C01_verify_is_standard_on_curve SM2Facts_proved). Qed.
+Print Assumptions C01_verify_is_standard_on_curve_unconditional.
 
-Theorem C01_accepting_keys_listed_assoc_only : ltac:(with_assoc5 C01.C01_accepting_keys_listed).
+Theorem C01_accepting_keys_listed_unconditional : ltac:(with_facts5 C01.C01_accepting_keys_listed).
 Proof.
-  exact (fun H => C01.C01_accepting_keys_listed P_prime_holds H G_order_divides_n_holds (G_multiples_finite_from_assoc H) N_prime_holds).
+  exact (C01.C01_accepting_keys_listed P_prime_holds Add_assoc_holds G_order_divides_n_holds G_multiples_finite_holds N_prime_holds).
 Qed.
-Print Assumptions C01_accepting_keys_listed_assoc_only.
+Print Assumptions C01_accepting_keys_listed_unconditional.
 
 (* ---- C02: Decrypt inverts Encrypt (raw and ASN.1); another key is refused or collides ---------------------------- *)
-Theorem C02_decrypt_encrypt_assoc_only : ltac:(with_assoc C02.C02_decrypt_encrypt).
-Proof. exact (fun H => C02.C02_decrypt_encrypt (SM2Facts_from_assoc H)). Qed.
-Print Assumptions C02_decrypt_encrypt_assoc_only.
-Check C02_decrypt_encrypt_assoc_only.
+Theorem C02_decrypt_encrypt_unconditional : ltac:(with_facts C02.C02_decrypt_encrypt).
+Proof. exact (C02.C02_decrypt_encrypt SM2Facts_proved). Qed.
+Print Assumptions C02_decrypt_encrypt_unconditional.
+Check C02_decrypt_encrypt_unconditional.
 
-Theorem C02_decryptAsn1_encryptAsn1_assoc_only : ltac:(with_assoc C02.C02_decryptAsn1_encryptAsn1).
-Proof. exact (fun H => C02.C02_decryptAsn1_encryptAsn1 (SM2Facts_from_assoc H)). Qed.
-Print Assumptions C02_decryptAsn1_encryptAsn1_assoc_only.
+Theorem C02_decryptAsn1_encryptAsn1_unconditional : ltac:(with_facts C02.C02_decryptAsn1_encryptAsn1).
+Proof. exact (C02.C02_decryptAsn1_encryptAsn1 SM2Facts_proved). Qed.
+Print Assumptions C02_decryptAsn1_encryptAsn1_unconditional.
 
-Theorem C02_other_key_rejected_or_collision_assoc_only : ltac:(with_assoc5 C02.C02_other_key_rejected_or_collision).
+Theorem C02_other_key_rejected_or_collision_unconditional : ltac:(with_facts5 C02.C02_other_key_rejected_or_collision).
 Proof.
-  exact (fun H => C02.C02_other_key_rejected_or_collision P_prime_holds H G_order_divides_n_holds (G_multiples_finite_from_assoc H) N_prime_holds).
+  exact (C02.C02_other_key_rejected_or_collision P_prime_holds Add_assoc_holds G_order_divides_n_holds G_multiples_finite_holds N_prime_holds).
 Qed.
-Print Assumptions C02_other_key_rejected_or_collision_assoc_only.
+Print Assumptions C02_other_key_rejected_or_collision_unconditional.
 
-Theorem C02_shared_points_differ_assoc_only : ltac:(with_assoc5 C02.C02_shared_points_differ).
+Theorem C02_shared_points_differ_unconditional : ltac:(with_facts5 C02.C02_shared_points_differ).
 Proof.
-  exact (fun H => C02.C02_shared_points_differ P_prime_holds H G_order_divides_n_holds (G_multiples_finite_from_assoc H) N_prime_holds).
+  exact (C02.C02_shared_points_differ P_prime_holds Add_assoc_holds G_order_divides_n_holds G_multiples_finite_holds N_prime_holds).
 Qed.
-Print Assumptions C02_shared_points_differ_assoc_only.
+Print Assumptions C02_shared_points_differ_unconditional.
 
 (* ---- C03: the curve object computes the group law --------------------------------------------------------------- *)
-Theorem C03_ScalarMult_is_smul_assoc_only : ltac:(with_assoc C03.C03_ScalarMult_is_smul).
-Proof. exact (fun H => C03.C03_ScalarMult_is_smul (SM2Facts_from_assoc H)). Qed.
-Print Assumptions C03_ScalarMult_is_smul_assoc_only.
-Check C03_ScalarMult_is_smul_assoc_only.
+Theorem C03_ScalarMult_is_smul_unconditional : ltac:(with_facts C03.C03_ScalarMult_is_smul).
+Proof. exact (C03.C03_ScalarMult_is_smul SM2Facts_proved). Qed.
+Print Assumptions C03_ScalarMult_is_smul_unconditional.
+Check C03_ScalarMult_is_smul_unconditional.
 
-Theorem C03_ScalarBaseMult_is_smul_assoc_only : ltac:(with_assoc C03.C03_ScalarBaseMult_is_smul).
-Proof. exact (fun H => C03.C03_ScalarBaseMult_is_smul (SM2Facts_from_assoc H)). Qed.
-Print Assumptions C03_ScalarBaseMult_is_smul_assoc_only.
+Theorem C03_ScalarBaseMult_is_smul_unconditional : ltac:(with_facts C03.C03_ScalarBaseMult_is_smul).
+Proof. exact (C03.C03_ScalarBaseMult_is_smul SM2Facts_proved). Qed.
+Print Assumptions C03_ScalarBaseMult_is_smul_unconditional.
 
-Theorem C03_small_multiples_of_kG_assoc_only : ltac:(with_assoc C03.C03_small_multiples_of_kG).
-Proof. exact (fun H => C03.C03_small_multiples_of_kG (SM2Facts_from_assoc H)). Qed.
-Print Assumptions C03_small_multiples_of_kG_assoc_only.
+Theorem C03_small_multiples_of_kG_unconditional : ltac:(with_facts C03.C03_small_multiples_of_kG).
+Proof. exact (C03.C03_small_multiples_of_kG SM2Facts_proved). Qed.
+Print Assumptions C03_small_multiples_of_kG_unconditional.
 
-Theorem C03_precomputed_table_correct_assoc_only : ltac:(with_assoc C03.C03_precomputed_table_correct).
-Proof. exact (fun H => C03.C03_precomputed_table_correct (SM2Facts_from_assoc H)). Qed.
-Print Assumptions C03_precomputed_table_correct_assoc_only.
+Theorem C03_precomputed_table_correct_unconditional : ltac:(with_facts C03.C03_precomputed_table_correct).
+Proof. exact (C03.C03_precomputed_table_correct SM2Facts_proved). Qed.
+Print Assumptions C03_precomputed_table_correct_unconditional.
 
-Theorem C03_GenerateKey_model_assoc_only : ltac:(with_assoc C03.C03_GenerateKey_model).
-Proof. exact (fun H => C03.C03_GenerateKey_model (SM2Facts_from_assoc H)). Qed.
-Print Assumptions C03_GenerateKey_model_assoc_only.
+Theorem C03_GenerateKey_model_unconditional : ltac:(with_facts C03.C03_GenerateKey_model).
+Proof. exact (C03.C03_GenerateKey_model SM2Facts_proved). Qed.
+Print Assumptions C03_GenerateKey_model_unconditional.
 
 (* the theorems that only needed "prime sm2_p" are now unconditional *)
 Theorem C03_Add_is_group_add_unconditional : ltac:(unconditional C03.C03_Add_is_group_add).
@@ -123,25 +120,27 @@ Proof. exact (C03.C03_ToAffine sm2_p_is_prime). Qed.
 Print Assumptions C03_ToAffine_unconditional.
 
 (* ---- C09: a certificate signed with an SM2 key verifies ------------------------------------------------------------ *)
-Theorem C09_created_verifies_sm2_assoc_only : ltac:(with_assoc C09.created_verifies_sm2).
-Proof. exact (fun H => C09.created_verifies_sm2 (SM2Facts_from_assoc H)). Qed.
-Print Assumptions C09_created_verifies_sm2_assoc_only.
+Theorem C09_created_verifies_sm2_unconditional : ltac:(with_facts C09.created_verifies_sm2).
+Proof. exact (C09.created_verifies_sm2 SM2Facts_proved). Qed.
+Print Assumptions C09_created_verifies_sm2_unconditional.
 
 (* ---- C13: both sides of the key exchange agree; the model is the standard's ---------------------------------------- *)
-Theorem C13_kx_agree_assoc_only : ltac:(with_assoc C13.C13_kx_agree_facts).
-Proof. exact (fun H => C13.C13_kx_agree_facts (SM2Facts_from_assoc H)). Qed.
-Print Assumptions C13_kx_agree_assoc_only.
-Check C13_kx_agree_assoc_only.
+Theorem C13_kx_agree_unconditional : ltac:(with_facts C13.C13_kx_agree_facts).
+Proof. exact (C13.C13_kx_agree_facts SM2Facts_proved). Qed.
+Print Assumptions C13_kx_agree_unconditional.
+Check C13_kx_agree_unconditional.
 
 Theorem C13_kx_is_standard_unconditional : ltac:(let T := type of (C13.C13_kx_is_standard P_prime_holds) in exact T).
 Proof. exact (C13.C13_kx_is_standard P_prime_holds). Qed.
 Print Assumptions C13_kx_is_standard_unconditional.
 
 (* ---- C14: Decompress (Compress P) = P for every point of the SM2 curve, no premise left --------------------------- *)
-Theorem C14_compress_decompress_unconditional :
+Theorem C14_compress_decompress_sm2_unconditional :
   forall x y : N, on_curve sm2P sm2A sm2B x y = true -> Decompress_sm2 (Compress x y) = Some (x, y).
 Proof.
-  apply C14.compress_decompress_sm2.
-  change (Z.of_N sm2P) with sm2_p. exact sm2_p_is_prime.
+  apply (compress_decompress_curve sm2P sm2A sm2B).
+  - change (Z.of_N sm2P) with sm2_p. exact sm2_p_is_prime.
+  - reflexivity.
+  - vm_compute. discriminate.
 Qed.
-Print Assumptions C14_compress_decompress_unconditional.
+Print Assumptions C14_compress_decompress_sm2_unconditional.
